@@ -485,8 +485,13 @@ func IterateNaluAnnexb(nals []byte, handler func(nal []byte)) error {
 		start := prePos + preLength
 		pos, length := IterateNaluStartCode(nals, start)
 		if pos == -1 {
-			if start < len(nals) {
-				handler(nals[start:])
+			// ISO-14496-10 Annex B.1: trailing_zero_8bits after the last nal unit are not part of it
+			end := len(nals)
+			for end > start && nals[end-1] == 0 {
+				end--
+			}
+			if start < end {
+				handler(nals[start:end])
 				return nil
 			} else {
 				return nazaerrors.Wrap(base.ErrAvc)
